@@ -1,6 +1,7 @@
 """Verify functions against their contracts: explore paths, collect and discharge obligations."""
 from __future__ import annotations
 
+import json
 import os
 import time
 import traceback
@@ -29,6 +30,7 @@ class FunctionResult:
         self.time = 0.0
         self.requires_sat = None
         self.lib_used: list = []
+        self.deps: list = []
 
     def to_json(self):
         return self.__dict__
@@ -39,6 +41,8 @@ def ob_to_dict(ob: Obligation, with_model=True):
          "time": round(ob.time, 4), "where": ob.where, "path": ob.path_id,
          "clause": ob.info.get("clause"), "outcome": ob.info.get("outcome"),
          "info": {k: v for k, v in ob.info.items() if k in ("lock", "line", "field", "write", "callee", "expected", "cvc5_recheck")}}
+    if ob.info.get("replay"):
+        d["replay"] = ob.info["replay"]
     if ob.status == "failed" and with_model:
         d["model"] = solve.model_summary(ob.model)
         d["trace"] = [(str(a), bool(b)) for a, b in ob.info.get("trace", [])]
@@ -59,6 +63,8 @@ def verify_function(eng: Exec, c: Contract, recheck_cvc5=False, model_hook=None)
     stack = [[]]
     pid = 0
     names_seen = {}
+    hard = set()
+    eng.touched = {fi.key: eng.fe.source_hash(fi)}
     try:
         while stack:
             prefix = stack.pop()
@@ -76,7 +82,7 @@ def verify_function(eng: Exec, c: Contract, recheck_cvc5=False, model_hook=None)
             if terminal:
                 res.terminal_paths += 1
             stack.extend(st.alternatives)
-            inc = solve.PathSolver(st.facts)
+            inc = solve.PathSolver(st.facts, hard)
             for ob in st.obligations:
                 ob.path_id = pid
                 if ob.kind == "guarded-by":
@@ -105,6 +111,9 @@ def verify_function(eng: Exec, c: Contract, recheck_cvc5=False, model_hook=None)
         res.status = "error"
         res.reason = "%r\n%s" % (e, traceback.format_exc()[-2500:])
     res.time = time.time() - t0
+    import hashlib
+    res.deps = sorted("%s:%s" % k for k in eng.touched)
+    res.src_hash = hashlib.sha256(json.dumps(sorted(eng.touched.items())).encode()).hexdigest()[:16]
     from . import lib
     res.lib_used = sorted(lib.USED)
     return res
